@@ -5,6 +5,8 @@
 //!   expect = (expect (gets <g>...) (texts <t>...))  the generator's own reading of the mapping table
 //!            it rendered (g = none | (some u...) | any ; t = (cp...) | any ; any = unchecked), or (malformed) -- then only
 //!            the outcome class is compared with the model and a panic is the only FAIL.
+//! The head `render` (the CMap text was written by the extracted renderer of coq/Spec/CMapRender.v; the layout and the
+//! section list follow the expectation and are read by the model only) is treated like `case`.
 //! Result: (res cmap (gets <g>...) (texts (ok cp...)|(err)...)) | (res (err parse|range|other)) | (res notcmap)
 //! Only public API: Dictionary::get_font_encoding on a font whose ToUnicode is an indirect stream,
 //! Document::decode_text, and ToUnicodeCMap::get through the public Encoding::UnicodeMapEncoding field.
